@@ -405,13 +405,24 @@ func c05Gen(r *core.Rand) *C05Script {
 	videoPid, audioPid, sctePid := 0x100, 0x101, 0x1F5
 	pm := genPMT(r, 12)
 	// make the PMT describe the stream: video, audio, scte35
-	pm.Streams = append([]ref.ES{{Type: 0x1B, PID: videoPid, Descs: pm.ProgDescs}, {Type: 0x0F, PID: audioPid, Descs: []ref.Desc{{Tag: 10, Body: []byte("eng\x00")}}}, {Type: 0x86, PID: sctePid}}, pm.Streams...)
-	for pm.SectionLength() > 1021 {
-		pm.Streams = pm.Streams[:len(pm.Streams)-1]
+	vd := pm.ProgDescs
+	if len(vd) > 2 {
+		vd = vd[:2]
 	}
+	pm.Streams = append([]ref.ES{{Type: 0x1B, PID: videoPid, Descs: vd}, {Type: 0x0F, PID: audioPid, Descs: []ref.Desc{{Tag: 10, Body: []byte("eng\x00")}}}, {Type: 0x86, PID: sctePid}}, pm.Streams...)
 	// extra descriptors of the kinds whose decoders index into the body
 	if r.Bool() {
 		pm.Streams[1].Descs = append(pm.Streams[1].Descs, ref.Desc{Tag: 0xCC, Body: r.Bytes(r.Pick(2, 3, 8, 20))}, ref.Desc{Tag: 0xE9, Body: r.Bytes(r.Pick(1, 2, 6, 12))})
+	}
+	for pm.SectionLength() > 1021 {
+		switch {
+		case len(pm.Streams) > 3:
+			pm.Streams = pm.Streams[:len(pm.Streams)-1]
+		case len(pm.ProgDescs) > 0:
+			pm.ProgDescs = pm.ProgDescs[:len(pm.ProgDescs)-1]
+		default:
+			pm.Streams[0].Descs = nil
+		}
 	}
 	pat := &ref.PATSpec{TSID: 1, Version: r.Intn(32), Reserved: 7, Entries: []ref.PATEntry{{Program: r.Range(1, 9), PID: pmtPid}}}
 	if r.Chance(1, 5) {
